@@ -16,6 +16,7 @@ import (
 	"github.com/ajitpratap0/GoSQLX/pkg/sql/parser"
 	"github.com/ajitpratap0/GoSQLX/pkg/sql/tokenizer"
 
+	"verif/checks/c08/probe"
 	"verif/engine/common"
 	"verif/sqlgen"
 )
@@ -181,7 +182,7 @@ func Check() *common.Check {
 		Level: "exploration",
 		Rule: fmt.Sprintf("inputs with at least one non-semicolon token: the sqlgen clause/DML/DDL/hole/nesting statements (valid), every single-token deletion, duplication and replacement by 7 hostile tokens of the first 250 (quick) / 1500 (thorough) distinct statements, "+
 			"all scripts of <=3 items over 3 valid + 2 invalid statements and the empty item (stray semicolons), 14 lexically invalid inputs; each through %d entry points compared with gosqlx.Parse (accept/reject, canonical tree, structured error code); "+
-			"all batches of length <=3 over 4 valid + 3 invalid inputs through ParseMultiple / ValidateMultiple. distinct = distinct input text; non-trivial = every executed case (each runs all entry points)", len(eps)),
+			"all batches of length <=3 over 4 valid + 3 invalid inputs, and every generated statement (once and twice) followed by the deepest nesting a new parser accepts, through ParseMultiple / ValidateMultiple. distinct = distinct input text; non-trivial = every executed case (each runs all entry points)", len(eps)),
 		Assume: []string{"ParseWithRecovery is compared through its first error", "failure index of a batch is read from the 'query <i>' prefix of the batch error"},
 		Enumerate: func(e *common.Enum) {
 			seen := map[string]bool{}
@@ -342,6 +343,35 @@ func Check() *common.Check {
 				}
 			}
 			brec(nil)
+			// batches at the nesting boundary: every generated statement followed by the deepest nesting a new
+			// parser accepts.  The batch calls reuse one parser, so any state a statement leaves behind (a leaked
+			// nesting level, a stale option) changes the verdict of the boundary query, which the individual calls accept.
+			deepest := probe.NestSQL(probe.MaxNest())
+			for _, s := range valid {
+				sql := s.SQL()
+				e.Do("batch-boundary|"+sql, func(c *common.Ctx) {
+					c.Input(sql + " || <deepest accepted nesting>")
+					if safeRun(eps[0], sql).ok != true || safeRun(eps[0], deepest).ok != true {
+						c.Outcome("batch-boundary:item-rejected")
+						return
+					}
+					for rep := 1; rep <= 2; rep++ {
+						qs := []string{sql}
+						if rep == 2 {
+							qs = append(qs, sql)
+						}
+						qs = append(qs, deepest)
+						if _, err := gosqlx.ParseMultiple(qs); err != nil {
+							c.Fail("batch-accept-mismatch:ParseMultiple:boundary", fmt.Sprintf("every item is accepted alone, the batch fails: %v", err))
+						}
+						if err := gosqlx.ValidateMultiple(qs); err != nil {
+							c.Fail("batch-accept-mismatch:ValidateMultiple:boundary", fmt.Sprintf("every item is accepted alone, the batch fails: %v", err))
+						}
+					}
+					c.Outcome("batch-boundary")
+					c.NonTrivial()
+				})
+			}
 		},
 	}
 }
